@@ -47,7 +47,9 @@ def register(P):
 
     P["PROPS"]["C16"] = {
         "module": "Asts.Props.C16",
-        "runs": [{"engine": "events", "quick": 40000, "thorough": 400000, "enum_quick": ["all"], "enum_thorough": ["all"], "proj": proj_events}],
+        "runs": [{"engine": "events", "quick": 40000, "thorough": 400000, "enum_quick": ["all"], "enum_thorough": ["all"], "proj": proj_events},
+                 # "a reconcile that fails is put back": the error has to reach the worker, i.e. sync must not swallow it
+                 {"engine": "sync", "quick": 5000, "thorough": 60000, "proj": lambda c, o: (o.get("out"),), "clauses": ["C16."], "extra_seeds": 1}],
         "rule": EV_RULE,
         "assumptions": ["the set informer's cache holds at most one set per namespace/name (its indexer is keyed by it)",
                         "the old and the new object of an update event are in the same namespace",
